@@ -14,6 +14,7 @@ pub mod names;
 pub mod refmodel;
 pub mod rng;
 pub mod run;
+pub mod textgen;
 
 pub use rng::Rng;
 pub use run::{Run, Tier};
